@@ -19,7 +19,9 @@ package stateless
 //@   ensures err == nil ==> bytesId(blk.StateRoot.Hash[:]) == bytesId(lb.Header.AppHash)
 //@   ensures err == nil ==> uf("cbor.BlockMeta.Header", old(bytesId(blk.Meta))) == uf("headerProtoMarshal.0", ufr[*cmtproto.Header]("headerToProto", lb.Header))
 //@   ensures-local err == nil ==> uf("commitHash", lastCommit) == bytesId(lb.LastCommitHash) && lastCommit == ufr[*cmttypes.Commit]("commitFromProto.0", &lastCommitProto)
-//@   note binds: Height, Hash, Time, StateRoot{Namespace,Version,Type,Hash}, Meta{Header,LastCommit}; unbound: Size (the code says it cannot be verified)
+//@   ensures-local err == nil && len(lb.LastBlockID.Hash) > 0 ==> lastCommit.Height == lb.Height - 1 && bytesId(lastCommit.BlockID.Hash) == bytesId(lb.LastBlockID.Hash)
+//@   note the decoded last commit handed out inside Block.Meta is for the block the verified header names as its predecessor: same height (H-1) and block identifier. CometBFT's Commit.Hash() - the only comparison the function makes - is the Merkle root of the SIGNATURES only; Height, Round and BlockID of the commit are not covered by it (and Round is covered by nothing but the votes): FAILS on the pinned tree, known finding F14
+//@   note binds: Height, Hash, Time, StateRoot{Namespace,Version,Type,Hash}, Meta{Header,LastCommit signatures}; unbound: Size (the code says it cannot be verified), LastCommit.Height/Round/BlockID (F14)
 
 //@ func verifyBlockResults
 //@   props C19
@@ -148,3 +150,14 @@ package stateless
 //@   props C19
 //@   requires c != nil
 //@   note the state root is read from the last transaction of a list accepted by verifyTransactions (via GetTransactions)
+
+// ---- transactions with results (C19): the transaction list is the verified one ----
+
+//@ ghost var GVerTx int
+
+//@ func Core.GetTransactionsWithResults
+//@   props C19
+//@   requires c != nil
+//@   precall full\.TransactionResultsFromCometBFT$ :: argIs(1, txs) && argIs(2, meta.TxsResults) && GVerTx > old(GVerTx) && defined(meta) && meta != nil
+//@   ensures err != nil ==> result0 == nil
+//@   note the transactions that are paired with the block results - and returned - are the list obtained through Core.GetTransactions, the accessor that hashes the provider's list against the DataHash of the light-client verified header (counted: it returned without error before the pairing), and the results are the ones verifyBlockResults returned; nothing is taken from the provider directly (seed C19_h called the provider's GetTransactions)
